@@ -233,7 +233,7 @@ def _bucket_node(dt):
     return dt, "flat"
 
 
-def project_result(dt) -> dict:
+def project_result(dt, wl_shift: bool = False) -> dict:
     node, layout = _bucket_node(dt)
     ds = node.to_dataset()
     res: dict = {"layout": layout}
@@ -266,7 +266,17 @@ def project_result(dt) -> dict:
                     slices.append({"label": lab, "level": BADLABEL})
                     continue
                 vals = np.asarray(sl.transpose("wavelength", "y", "x").values)
-                lv = {level_of(vals[w] - w / 64.0) for w in range(vals.shape[0])}
+                wl = [float(v) for v in sl["wavelength"].values]
+                # wavelengths that this readout did not hold are NaN planes (the grids of the readouts are united)
+                keep = [w for w in range(vals.shape[0]) if not np.isnan(vals[w]).all()]
+                if not keep:
+                    slices.append({"label": lab, "level": EMPTY})
+                    continue
+                w0 = k if wl_shift else 0
+                if [wl[w] for w in keep] != [500.0 + 10 * (j + w0) for j in range(len(keep))]:
+                    slices.append({"label": lab, "level": BADLABEL})
+                    continue
+                lv = {level_of(vals[w] - j / 64.0) for j, w in enumerate(keep)}
                 lvl = lv.pop() if len(lv) == 1 else NONUNIFORM
             else:
                 lvl = EMPTY
